@@ -86,10 +86,13 @@ def build_property(pid):
     """returns dict: ok, obligations, discharged, broken (list of str), assumptions, log"""
     res = dict(ok=False, obligations=[], discharged=[], broken=[], assumptions='', log='', translator='ok')
     ok, msg = lib.translate()
-    if not ok and pid not in NEEDS_TRANSLATION:
-        # the units/tables source has left the translator's template.  This property's model only USES the quantity layer: build it over
-        # the description pinned at the known tree (coq/gen_pinned); its own correspondence, which draws every quantity in random units
-        # and compares with the code as it is now, remains the tie.  C05/C06/C19/C07/C09 are ABOUT that source: they do not fall back.
+    if not ok:
+        # the units/tables source has left what the translator can read (even after its meaning-preserving normalisations).  The
+        # theorems are then checked over the description PINNED at the known tree (coq/gen_pinned), and the tie to the code as it is now
+        # is the correspondence alone: for the properties that only USE the quantity layer, their own (quantities in random units); for
+        # the properties ABOUT the units source (C05 C06 C19 C07 C09), the quantity correspondence at several times its usual volume
+        # (every ordered pair of operand classes x every operation, every ordered unit pair of every kind, every comparison, constructors,
+        # in-place conversions; values sampled) -- a disagreement there is a broken tie as for any hand-written model.
         for f in ('UnitsGen.v', 'TablesGen.v'):
             src = open(os.path.join(lib.COQ, 'gen_pinned', f + '.txt')).read()
             dst = os.path.join(lib.COQ, 'gen', f)
@@ -97,6 +100,8 @@ def build_property(pid):
                 os.makedirs(os.path.dirname(dst), exist_ok=True)
                 open(dst, 'w').write(src)
         res['translator'] = 'FAILED, pinned description used: ' + msg[:300]
+        if pid in NEEDS_TRANSLATION:
+            os.environ['VERIF_BOOST'] = str(max(6, int(os.environ.get('VERIF_BOOST', '1') or 1)))
         ok = True
     if not ok:
         res['translator'] = msg
@@ -215,6 +220,16 @@ def main():
     except Exception:  # noqa
         corr = dict(ok=False, evaluations=0, nontrivial=0, samples=[], distribution={}, broken=['correspondence harness crashed: ' + traceback.format_exc()[-1500:]])
     broken += corr.get('broken', [])
+    if build.get('translator', 'ok') != 'ok' and pid in ('C07', 'C09'):
+        # no regenerated description: the quantity layer these theorems go through is tied to the code by the quantity correspondence
+        try:
+            import fam_quantity
+            qc = fam_quantity.correspondence('C06', tier, seed)
+            broken += ['[quantity layer] ' + b for b in qc.get('broken', [])]
+            corr['evaluations'] = corr.get('evaluations', 0) + qc['evaluations']
+            corr.setdefault('failing_cases', [])
+        except Exception:  # noqa
+            broken.append('quantity correspondence crashed: ' + traceback.format_exc()[-800:])
     # search (always runs: cheaply when nothing broke, at full volume when something did)
     try:
         witnesses, searched = fam.search(pid, tier, seed, escalate=bool(broken) or bool(changed) or bool(corr.get('failing_cases')), hints=corr.get('failing_cases', []))
